@@ -989,6 +989,9 @@ def run(tier='quick'):
                           'stream\'s output counters, or a test of them guards a throw (not from the length prefix alone)',
                    floor=1)
     extra.inflated_length_is_result_length(prog, chk, S11)
+    S12 = chk.rule('S12', 'a byte taken from a blob means 0..255: no (signed) char read through a pointer is widened without '
+                          'going through an unsigned 8-bit type', floor=1)
+    extra.bytes_read_unsigned(prog, chk, S12)
     return chk.finish('grammar extraction for %d encoder/decoder pairs from the clang AST; symbolic '
                       'extent computation; dominance of range guards; enumerator comparison for '
                       'sentinel constants' % len(grams))
